@@ -30,6 +30,20 @@ CLAIMED = {
         "(outside the statement); records are owned by their table slot; `fg` itself is resume_job behind @unthreadable. "
         "Trusted: pyvc engine + library models (deque/dict/set) + z3/cvc5.",
    design="§3 C20"),
+ "C15": dict(
+   category="proof",
+   text="Aliases.eval_alias under contract for every alias table and command (list, callable, decorator and return_command aliases, "
+        "any cycle shape): termination of the recursion by a variant (number of alias names not yet in the seen set, strictly "
+        "decreasing at the recursive call), each alias expanded at most once per chain (ghost expansion log duplicate-free and "
+        "disjoint from the seen set), result stops at a fixed point, the user's arguments are a suffix of the result in their "
+        "original order (chains without return_command), decorators only appended; the alias table is only read through get/in/[] "
+        "(order independence: iterating it is an obligation failure). Aliases.get, SubprocSpec.resolve_decorators / add_decorator / "
+        "resolve_alias (every decorator collected by the chain applied once, in order; no re-entry for a running alias) and "
+        "resolve_binary_loc (recursive-alias error iff ...) are verified against callee contracts, never bodies.",
+   note="Assumed: finite alias table (two cardinality axioms: card >= 0, inserting a new name decreases the unseen count by 1); "
+        "what a callable / return_command alias does when run (external, may raise); expand_path is a pure function of one word (C04); "
+        "string-alias classification in Aliases.__setitem__ (lexer) not verified. Trusted: pyvc engine + models + z3/cvc5.",
+   design="§3 C15"),
 }
 NA = {
  "C01": "equivalence of two grammars (PLY LALR tables vs CPython's PEG parser) is not a function contract; no contract within reach can express or decide it (DESIGN §3 C01)",
